@@ -12,6 +12,18 @@ CHECKS = {
    technique="explicit-state exploration of job completion orders (stateless replay per schedule over a fake in-process ray, state merging at join barriers) + per-state bookkeeping invariants",
    text="For each small real network (1-3 sensors x 1-3 targets quick, up to 4x4 / 2x5 thorough; Munkres, greedy, all-visible, seeded random; 2-3 steps) every completion order of every parallel job batch (propagate, predict, reward, task execution, update) of the real Scenario.stepForward is replayed on a fresh scenario (all n! orders up to n=5 quick / 6 thorough, <=2 inversions beyond) and must reach the same canonical driver state (agents, filters, sensor pointing, engine matrices, record lists, every DB table) after that join and after every step; after every step of every run the engine's observation/miss lists and DB rows must equal the multiset union of the job results, each tasked pair has exactly one primary record, and tasked sensors carry the boresight/time their job reported.",
    note="Ray modelled by verif/fakeray.py (pickled arguments/results, one finished job per wait); job results are pure functions of submissions (re-checked without memo in the thorough tier); estimates compared to 1e-9 relative because the property allows rounding differences under observation reordering; combinations of permutations in different batches are covered by the one-successor induction, not replayed"),
+ "C01": dict(level="model_checking", design="§3 C01",
+   technique="explicit-state exploration of event histories on the real scenario loop (one event on every step boundary, every kind, for every (start, step) of a lattice) with integer-second oracle",
+   text="For every (start instant, physics step) of the lattice a real Scenario is run for 40 (quick) / 200 (thorough) steps with an event on every step boundary cycling through all instantaneous kinds, plus events 1 s before/after boundaries and mid-step; planned impulses with estimation on; task-priority and sensor-time-bias intervals with ends on boundaries on a two-engine network. Every handleEvent call is logged (row, handler identity, step) and compared with the step computed in integer seconds; agent membership after each step, reward rows (priority factor), bias queues and the final truth/estimate velocities (each delta-v exactly once) are checked.",
+   note="default job completion order; TwoBody propagation between impulses is the impulse-effect reference; handleEvent wrappers are installed in the harness process only; ground-facility sensor additions are not exercised (their handler raises for an unrelated reason, see DESIGN)"),
+ "C09": dict(level="model_checking", design="§2.2, §3 C09",
+   technique="exhaustive enumeration of run-call histories x step pairs x agent-set histories with SQL audit against a recorded reference, plus crash-point enumeration (fault at every SQL statement and at commit of every save)",
+   text="Every (physics,output) pair of the lattice x every split of the run into consecutive propagateTo calls x agent-set history (none, additions+removals, maneuver detections) x estimation mode is executed on the real Scenario over an in-memory SQLite DB; the DB is audited against the states recorded from the live objects before each save (exactly one truth/estimate row per live agent per output epoch and none elsewhere, bit-equal values, unique increasing epochs matching their timestamps, every julian_date/agent reference resolvable, no duplicate rows, tasks per engine pair). For every save of a short run an OperationalError is injected at each SQL statement and at the commit: the DB must equal the pre-save or post-save contents.",
+   note="SQLite in-memory DB via the real ResonaateDatabase; a DB fault is modelled as OperationalError before a statement / at commit; default job order"),
+ "C10": dict(level="model_checking", design="§3 C10",
+   technique="pairwise configuration lattice (every single-factor variant and every run split) + exhaustive job-completion-order exploration, comparing truth state bytes per step",
+   text="A base scenario (special-perturbations truth, scheduled impulse, station keeping, ground+space sensor) is compared with every single-factor variant (truth-only, filter tuning/resampling/dynamics, detector, reward, decision, sensor noise, FoV/masks, seed, output cadence, every two-call split and one call per step, agents added/removed, second engine) and with every completion order of every job batch: the truth eci_state bytes of every common agent after every step and the TruthEphemeris rows must be identical. Job memoisation is off in this check.",
+   note="Ray modelled by verif/fakeray.py; same data files for both runs of a pair"),
 }
 
 NOT_APPLICABLE = {}
